@@ -37,6 +37,14 @@ HESS_FEW_WORST = {('backward', 2): 1.3e-04, ('backward', 3): 2.5e-06, ('backward
                   ('central2', 2): 4.8e-09, ('central2', 3): 1.2e-11, ('central2', 4): 1.2e-11, ('central2', 5): 7.2e-10,
                   ('forward', 2): 1.4e-04, ('forward', 3): 2.8e-06, ('forward', 4): 2.2e-05, ('forward', 5): 9.1e-06}
 
+# worst error / scale of default-configured Hessian ('H/<method>') and Hessdiag ('D/<method>/<order>') on the unchanged tree, smooth family,
+# 5400 cases; the envelope is 100 x these
+HESS_DEFAULT_WORST = {'D/backward/2': 4.9e-09, 'D/backward/4': 3.8e-10, 'D/backward/6': 1.5e-10, 'D/central/2': 9.5e-12,
+                      'D/central/4': 2.6e-12, 'D/central/6': 1.1e-12, 'D/complex/2': 6.6e-13, 'D/forward/2': 3.9e-09,
+                      'D/forward/4': 2.8e-10, 'D/forward/6': 5.8e-11, 'D/multicomplex/2': 1.0e-15, 'H/backward': 3.0e-09,
+                      'H/central': 1.4e-11, 'H/central2': 2.5e-11, 'H/complex': 1.5e-08, 'H/forward': 2.0e-09,
+                      'H/multicomplex': 1.0e-15}
+
 
 def run(ctx):
     import numdifftools as nd
@@ -84,6 +92,17 @@ def run(ctx):
                           'Hessian; all six methods; Hessdiag orders 2, 4, 6; f returning a length-1 array; complex-valued f with real-step methods; '
                           'user step generators; checks: exact symmetry (H == H.T bitwise), entries within 1000 x error estimate + floor, Hessdiag vs '
                           'the Hessian diagonal within their error estimates; distinct = distinct (n, method, data)')
+    # other objects exist in the same process: built with keyword step options of their own (scalar step, few steps, another ratio) and
+    # used before anything below is built.  They must not change what a default-configured object does afterwards.
+    with warnings.catch_warnings():
+        warnings.simplefilter('ignore')
+        try:
+            _q = lambda t: float(np.sum(t * t))
+            nd.Hessian(_q, step=1e-2, num_steps=6)(np.array([0.5, 1.0]))
+            nd.Hessdiag(_q, step=0.05, step_ratio=3.0, num_steps=5)(np.array([0.5, 1.0]))
+            nd.Hessian(_q, method='forward', step=1e-3, num_steps=4, offset=1)(np.array([0.5, 1.0]))
+        except Exception as ex:
+            ctx.violation('Hessian / Hessdiag with keyword step options raised %r' % ex)
     worst_few = 0.0
     for it in range(ctx.budget(120, 1500) * (2 if (ctx.broken or ctx.mismatches) else 1)):
         n = rng.randint(1, 6)
@@ -218,6 +237,38 @@ def run(ctx):
                               envelope=100 * HESSDIAG_WORST[(meth, order)], a=a.tolist(), b=b.tolist(), Q=Q.tolist(), hessdiag=hd.tolist(),
                               exact=np.diag(exact).tolist())
                 break
+    # ---- default configuration (no step argument at all): what most users run; calibrated envelope per method / order
+    worst_d = 0.0
+    for it in range(ctx.budget(60, 600)):
+        n = rng.randint(1, 6)
+        meth = rng.choice(METHODS)
+        x = np.array([rng.uniform(-1.5, 1.5) for _ in range(n)])
+        Q = np.array([[rng.randint(-8, 8) / 4 for _ in range(n)] for _ in range(n)])
+        Q = (Q + Q.T) / 2
+        g = np.array([rng.randint(-8, 8) / 4 for _ in range(n)])
+        a, b = np.array([rng.uniform(-1, 1) for _ in range(n)]), np.array([rng.uniform(-1, 1) for _ in range(n)])
+        f = lambda t: np.exp(np.dot(a, t)) + np.sin(np.dot(b, t)) + 0.5 * np.dot(t, Q @ t) + np.dot(a, t) * np.dot(b, t)
+        exact = np.exp(a @ x) * np.outer(a, a) - np.sin(b @ x) * np.outer(b, b) + Q + np.outer(a, b) + np.outer(b, a)
+        scale = 1 + np.abs(exact).max() + np.abs(g).max()
+        ctx.tried(('hessian-default', n, meth, tuple(x[:2])))
+        try:
+            with warnings.catch_warnings():
+                warnings.simplefilter('ignore')
+                H = nd.Hessian(f, method=meth)(x)
+                key, e = 'H/' + meth, float(np.max(np.abs(H - exact))) / scale
+                if meth != 'central2' and rng.random() < 0.5:
+                    order = rng.choice([2, 4, 6]) if meth in ('central', 'forward', 'backward') else 2
+                    hd = nd.Hessdiag(f, method=meth, order=order)(x)
+                    key, e = 'D/%s/%d' % (meth, order), float(np.max(np.abs(hd - np.diag(exact)))) / scale
+        except Exception as ex:
+            ctx.violation('default-configured Hessian / Hessdiag raised %r' % ex, method=meth, n=n, x=x.tolist())
+            continue
+        env = 100 * max(HESS_DEFAULT_WORST[key], 1e-14)
+        worst_d = max(worst_d, e / env)
+        if e > env:
+            ctx.violation('default-configured %s is outside the accuracy envelope of its method' % ('Hessian' if key[0] == 'H' else 'Hessdiag'),
+                          which=key, method=meth, n=n, x=x.tolist(), error_over_scale=e, envelope=env, a=a.tolist(), b=b.tolist(), Q=Q.tolist())
+    ctx.notes.append('default-configured Hessian / Hessdiag: worst error / envelope = %.3g' % worst_d)
     # ---- real-step Hessians from very few user steps: with k steps the pass-through rule leaves k estimates to the Richardson stage, and the
     # accuracy jumps by an order of h with every term it can use
     worst_f = 0.0
